@@ -1,6 +1,8 @@
 """C24 - client protocol stays frame-synchronised and round-trips payloads (syntax-tree rules)."""
 import re
+import os
 from .core import ast as A
+from . import astpanic
 
 FILE = "distributed-walrus/src/client.rs"
 
@@ -11,7 +13,48 @@ RULES = {
     "C24.2": "one response per frame: every back-edge path contains exactly one send_response(..).await",
     "C24.3": "payload pass-through: the command line is split with splitn(3, ' ') so that the payload (third item) keeps inner spaces; PUT stores payload.as_bytes().to_vec(); the line "
              "handed to the parser is only trim_end()-ed; GET formats the stored bytes with from_utf8_lossy and no other transformation",
+    "C24.4": "a frame cannot take the connection down: no function of client.rs reachable from handle_connection contains a panic site on client-supplied text - a str cut at a byte "
+             "position not known to be a character boundary (accepted: positions from find/rfind/char_indices/len of the same str, floor_char_boundary, an is_char_boundary guard), "
+             "a slice index or range not bounded by the slice's len(), unwrap/expect, panic!/assert!/unreachable!, position methods (split_at, truncate, ...), division by an "
+             "unchecked value. A panic in the per-connection task leaves the frame and every later frame of the connection unanswered. The classifier is exercised on every run on "
+             "harness/positive/c24_panic_sites.rs, whose 13 sites must be classified as recorded",
 }
+
+POSITIVE = os.path.join(os.path.dirname(os.path.dirname(os.path.abspath(__file__))), "harness", "positive", "c24_panic_sites.rs")
+POSITIVE_EXPECT = [
+    ("preview", "str-sliced-at-byte-offset"), ("safe_preview", "ok"), ("after_space", "ok"), ("head", "slice-index-unbounded"), ("head", "slice-range-unbounded"),
+    ("bounded", "ok"), ("must", "panics-on-none-or-err:unwrap"), ("must", "panics-on-none-or-err:expect"), ("must", "panic-macro:assert"), ("must", "panic-macro:panic"),
+    ("must", "division-by-unchecked-value"), ("cut", "position-method:truncate"), ("cut", "position-method:split_at"),
+]
+
+
+def check_no_panic_sites(ctx, f):
+    pos = A.load(ctx, [POSITIVE])[POSITIVE]
+    got = []
+    for it in pos.items:
+        if it["k"] == "fn":
+            got += [(it["name"], v) for kind, n, v, why in astpanic.classify(it)]
+    if got != POSITIVE_EXPECT:
+        ctx.anchor_missing("C24.4", "the panic-site classifier no longer classifies the positive example as recorded (got %s)" % got)
+        return
+    ctx.ok("C24.4", "harness/positive/c24_panic_sites.rs", "the classifier finds the 13 recorded sites of the positive example (10 panic sites, 3 discharged)", FILE, 1)
+    consts = {it["name"]: True for it in f.items if it["k"] == "const"}
+    fns = astpanic.reachable_fns(f, ["handle_connection"])
+    n = 0
+    for name in sorted(fns):
+        for it in f.fns(name):
+            n += 1
+            sites = astpanic.classify(it, consts)
+            bad = [x for x in sites if x[2] != "ok"]
+            for kind, node, v, why in sites:
+                if v == "ok":
+                    ctx.ok("C24.4", "client::" + name, "panic site discharged: " + why, FILE, node["line"])
+            for kind, node, v, why in bad:
+                ctx.violate("C24.4", "client::" + name, v, FILE, node["line"],
+                            "%s - a panic here unwinds the per-connection task: the frame being handled and every later frame of the connection get no response" % why)
+            if not bad:
+                ctx.ok("C24.4", "client::" + name, "no undischarged panic site (%d sites looked at)" % len(sites), FILE, it["line"])
+    ctx.floor("C24.4", "functions reachable from handle_connection", n, 3)
 
 
 def _disjuncts(e):
@@ -179,6 +222,8 @@ def run(ctx):
         ctx.ok("C24.2", "client::send_response", "a response is the little-endian length followed by the message bytes", FILE, wr[0]["line"])
     else:
         ctx.violate("C24.2", "client::send_response", "response-framing", FILE, sr["line"], "send_response does not write length then bytes")
+    check_no_panic_sites(ctx, f)
+    ctx.assume("C24.4 sees panic sites written in client.rs itself; panics inside NodeController methods called from it (controller/mod.rs) are not followed, nor is arithmetic overflow")
     ctx.assume("syntax-tree analysis of distributed-walrus/src/client.rs (the crate cannot be type-checked offline); names are resolved within the file only")
     return {
         "explanation": "enumeration of the acyclic control paths of one iteration of the frame loop over the parsed statement tree (`?`, early returns, continue and match arms included) "
